@@ -82,7 +82,7 @@ def mount_rows(ctx):
         return _MOUNT[ctx.cfg]
     EFF = [r'state::open_log_file$', r'RollState::rotation_necessary$', r'numbers::index_for_rcurrent$',
            r'timestamps::creation_timestamp_of_currentfile$', r'collision_free_infix_for_rotated_file$', r'^chrono::Local::now$',
-           r'timestamps::infix_from_timestamp$', r'numbers::number_infix$', r'reset_size_and_date$', r'remove_or_compress_too_old_logfiles$']
+           r'timestamps::infix_from_timestamp$', r'numbers::number_infix$', r'reset_size_and_date$', r'remove_or_compress_too_old_logfiles(_impl)?$']
     I = FDI(ctx.f, effects=EFF, no_inline=EFF + [r'infix_filter$', r'writes_direct$'], loop_k=1)
     rows = I.run('writers::file_log_writer::state::State::mount_next_linewriter_if_necessary')
     _MOUNT[ctx.cfg] = rows
